@@ -413,6 +413,12 @@ def build_streams(ctx):
     singles += [f"cp1 {c}" for c in CP_BOUNDS] + [f"cp1 {rand_cp(rng)}" for _ in range(300 if quick else 5000)]
     singles += ["dec -"] + [f"dec {b:02x}" for b in range(256)] + [f"dec {a:02x}{b:02x}" for a in range(256) for b in range(256)]
     singles += [f"dec {hx(rand_utf8ish(rng))}" for _ in range(6000 if quick else 200000)]
+    # every lead byte 0x00..0xFF with every available length 1..7 (C18-5's shape: a lead byte announcing more than 4 bytes with
+    # that many bytes available): continuation-byte tails and random tails
+    for b in range(256):
+        for n in range(1, 8):
+            singles.append(f"dec {hx(bytes([b]) + bytes([0x80 + (k * 7 + b) % 64 for k in range(n - 1)]))}")
+            singles.append(f"dec {hx(bytes([b]) + bytes(rng.randrange(256) for _ in range(n - 1)))}")
     singles += ["u32s -"] + ["u32s " + ",".join(str(rand_cp(rng)) for _ in range(rng.randrange(1, 12))) for _ in range(500 if quick else 10000)]
     singles += ["hex -"] + [f"hex {b:02x}" for b in range(256)]
     singles += [f"hex {hx(bytes(rng.randrange(256) for _ in range(rng.randrange(2, 40))))}" for _ in range(1500 if quick else 30000)]
